@@ -1,44 +1,13 @@
 import RoaringModel.Spec
 import RoaringModel.Inv
+import RoaringModel.Lemmas.ArrFacts
 /-!
-# The membership laws of the SPEC set algebra (`Spec.sOr / sAnd / sSub / sXor`) and sorted-list
-extensionality.  These laws *are* the specification of C02 (see the comment in `Spec.lean`); the
-executable merge forms are shown to satisfy them here.  Import-free.
+# The membership laws of the SPEC set algebra (`Spec.sOr / sAnd / sSub / sXor`)
+
+These laws *are* the specification of C02 (see the comment in `Spec.lean`); the executable merge forms are shown to satisfy them here.  (Sorted-list extensionality is `Arr.sorted_ext`,
+`Lemmas/ArrFacts.lean`.)
 -/
 namespace Roaring
-
-/-- two strictly ascending lists with the same members are equal
-    (local copy; the core library has the same fact as `Arr.sorted_ext` — unify after the merge) -/
-theorem sorted_ext_local : ∀ (l r : List Nat), Sorted l → Sorted r → (∀ x, x ∈ l ↔ x ∈ r) → l = r
-  | [], [], _, _, _ => rfl
-  | [], b :: r, _, _, h => by have := (h b).mpr (by simp); simp at this
-  | a :: l, [], _, _, h => by have := (h a).mp (by simp); simp at this
-  | a :: l, b :: r, hl, hr, h => by
-    have hl' := List.pairwise_cons.mp hl
-    have hr' := List.pairwise_cons.mp hr
-    have hab : a = b := by
-      have h1 := (h a).mp (by simp)
-      have h2 := (h b).mpr (by simp)
-      rcases List.mem_cons.mp h1 with h1 | h1
-      · exact h1
-      · rcases List.mem_cons.mp h2 with h2 | h2
-        · exact h2.symm
-        · have := hl'.1 b h2; have := hr'.1 a h1; omega
-    subst hab
-    congr 1
-    apply sorted_ext_local l r hl'.2 hr'.2
-    intro x
-    constructor
-    · intro hx
-      have := (h x).mp (List.mem_cons_of_mem _ hx)
-      rcases List.mem_cons.mp this with rfl | h3
-      · have := hl'.1 x hx; omega
-      · exact h3
-    · intro hx
-      have := (h x).mpr (List.mem_cons_of_mem _ hx)
-      rcases List.mem_cons.mp this with rfl | h3
-      · have := hr'.1 x hx; omega
-      · exact h3
 
 namespace Spec
 
